@@ -53,6 +53,14 @@ PROPS["C14"] = {
     "assumptions": ["Coh for both matrices (C01)"],
 }
 
+PROPS["C09"] = {
+    "module": "Matreex.Props.C09", "harness": "C09",
+    "technique": "Lean 4 theorems over a state-returning model (post-state also on failure) for reshape/resize and every fallible in-place operation + T1 delegation table for += / -= + correspondence on exhaustive single calls and random histories",
+    "trusted": ["Vec::resize_with / truncate as take/append on the memory-order sequence (effect-free Default here; unwinding behaviour is C02's subject)",
+                "the models of swap*/elementwise_assign are those of C10/C12"],
+    "assumptions": ["size <= usize::MAX for the receiver (C01)"],
+}
+
 LEVEL_TEXT = ("Machine-checked Lean 4 theorems, for all inputs the property quantifies over, about a model whose integer core is "
               "regenerated from /repo/src on every run and whose remaining structure is tied to the implementation by a differential "
               "correspondence run (same operation lines on crate and model) plus the property's own oracle on the implementation.")
